@@ -25,6 +25,14 @@ def fingerprint(spec, limit=200000):
         if len(entries) > limit or depth > 60:
             return
 
+        if isinstance(obj, int) and not isinstance(obj, bool) \
+                and abs(obj) >= 1 << 64:
+            # (repr() of a huge int is subject to the interpreter's
+            # int-to-str digit limit; hex is not.)
+            entries.append('{}=int:{:x}'.format(path, obj))
+
+            return
+
         if isinstance(obj, SCALARS):
             entries.append('{}={!r}'.format(path, obj))
 
